@@ -82,7 +82,7 @@ impl StackS {
 }
 
 //@struct file=yarel/src/object.rs name=CallFrame map "*const u8" => "usize"
-//@struct file=yarel/src/object.rs name=ObjFiber keepfields=caller,stack,frames,handling_exception,call_arity,return_ip,return_frame_count,pending_frame_count,pending_exception,error_ip map "Stack<Value, STACK_MAX>" => "StackS" map "*const u8" => "usize"
+//@struct file=yarel/src/object.rs name=ObjFiber keepfields=caller,stack,frames,handling_exception,call_arity,return_ip,return_frame_count,pending_frame_count,pending_exception,error_ip map "Stack<Value, STACK_MAX>" => "StackS" map "*const u8" => "usize" addfield "pub ghost cells_closed: Seq<int>"
 impl ObjFiber {
     //@fn file=yarel/src/object.rs path=ObjFiber::has_finished ret=r
     //@  ensures r == (self.frames@.len() == 0)
@@ -93,13 +93,18 @@ impl ObjFiber {
     #[verifier::external_body]
     fn is_new(&self) -> (r: bool) ensures r == self.new_fiber() { unimplemented!() }
     // object.rs close_upvalues_for_frame: closes the captured variables of the innermost frame (unit upvalues); frames,
-    // value stack, caller link are not touched
+    // value stack, caller link are not touched. `cells_closed` (ghost) logs the slot from which cells were closed
     #[verifier::external_body]
-    fn close_upvalues_for_frame(&mut self) requires old(self).frames@.len() > 0 ensures *final(self) == *old(self) { unimplemented!() }
+    fn close_upvalues_for_frame(&mut self)
+        requires old(self).frames@.len() > 0
+        ensures final(self).cells_closed == old(self).cells_closed.push(old(self).frames@.last().slot_base as int),
+            final(self).caller == old(self).caller, final(self).stack == old(self).stack, final(self).frames == old(self).frames, final(self).handling_exception == old(self).handling_exception, final(self).call_arity == old(self).call_arity,
+            final(self).return_ip == old(self).return_ip, final(self).return_frame_count == old(self).return_frame_count, final(self).pending_frame_count == old(self).pending_frame_count, final(self).pending_exception == old(self).pending_exception, final(self).error_ip == old(self).error_ip
+    { unimplemented!() }
     // object.rs take_return_data (its own contract: unit exc): forgets the parked return
     #[verifier::external_body]
     fn take_return_data(&mut self) -> (r: Option<(Value, usize)>)
-        ensures final(self).return_ip is None, final(self).caller == old(self).caller, final(self).stack == old(self).stack, final(self).frames == old(self).frames, final(self).handling_exception == old(self).handling_exception, final(self).call_arity == old(self).call_arity, final(self).return_frame_count == old(self).return_frame_count
+        ensures final(self).return_ip is None, final(self).cells_closed == old(self).cells_closed, final(self).caller == old(self).caller, final(self).stack == old(self).stack, final(self).frames == old(self).frames, final(self).handling_exception == old(self).handling_exception, final(self).call_arity == old(self).call_arity, final(self).return_frame_count == old(self).return_frame_count
     { unimplemented!() }
     #[verifier::external_body]
     fn current_frame(&self) -> (r: Option<&CallFrame>) ensures self.frames@.len() > 0 ==> (r matches Some(f) && *f == self.frames@.last()), self.frames@.len() == 0 ==> r is None { unimplemented!() }
@@ -108,7 +113,7 @@ impl ObjFiber {
         requires old(self).frames@.len() > 0
         ensures r matches Some(f) && *f == old(self).frames@.last() && final(self).frames@ == old(self).frames@.drop_last().push(*final(f)),
             final(self).stack == old(self).stack, final(self).caller == old(self).caller, final(self).handling_exception == old(self).handling_exception, final(self).call_arity == old(self).call_arity,
-            final(self).return_ip == old(self).return_ip, final(self).return_frame_count == old(self).return_frame_count,
+            final(self).return_ip == old(self).return_ip, final(self).return_frame_count == old(self).return_frame_count, final(self).cells_closed == old(self).cells_closed,
     { unimplemented!() }
 }
 
@@ -149,7 +154,7 @@ impl Vm {
     fn clear_caller(&mut self, current: Option<Root<RefCell<ObjFiber>>>)
         requires current matches Some(c) && old(self).heap.dom().contains(c.id())
         ensures old(self).handles_same(final(self)),
-            final(self).heap == old(self).heap.insert(current->0.id(), ObjFiber { caller: None, stack: old(self).heap[current->0.id()].stack, frames: old(self).heap[current->0.id()].frames, handling_exception: old(self).heap[current->0.id()].handling_exception, call_arity: old(self).heap[current->0.id()].call_arity, return_ip: old(self).heap[current->0.id()].return_ip, return_frame_count: old(self).heap[current->0.id()].return_frame_count, pending_frame_count: old(self).heap[current->0.id()].pending_frame_count, pending_exception: old(self).heap[current->0.id()].pending_exception, error_ip: old(self).heap[current->0.id()].error_ip }),
+            final(self).heap == old(self).heap.insert(current->0.id(), ObjFiber { caller: None, stack: old(self).heap[current->0.id()].stack, frames: old(self).heap[current->0.id()].frames, handling_exception: old(self).heap[current->0.id()].handling_exception, call_arity: old(self).heap[current->0.id()].call_arity, return_ip: old(self).heap[current->0.id()].return_ip, return_frame_count: old(self).heap[current->0.id()].return_frame_count, pending_frame_count: old(self).heap[current->0.id()].pending_frame_count, pending_exception: old(self).heap[current->0.id()].pending_exception, error_ip: old(self).heap[current->0.id()].error_ip, cells_closed: old(self).heap[current->0.id()].cells_closed }),
     { unimplemented!() }
 
     // operand-stack helpers of the ACTIVE fiber (vm.rs push/pop/poke: proved against Stack's contract in unit `exc`)
@@ -157,21 +162,21 @@ impl Vm {
     fn pop(&mut self) -> (r: Value)
         requires old(self).fiber is Some, old(self).heap.dom().contains(old(self).active_id()), old(self).active().stack.view.len() > 0
         ensures old(self).handles_same(final(self)), r == old(self).active().stack.view.last(),
-            final(self).heap == old(self).heap.insert(old(self).active_id(), ObjFiber { caller: old(self).active().caller, stack: StackS { view: old(self).active().stack.view.drop_last() }, frames: old(self).active().frames, handling_exception: old(self).active().handling_exception, call_arity: old(self).active().call_arity, return_ip: old(self).active().return_ip, return_frame_count: old(self).active().return_frame_count, pending_frame_count: old(self).active().pending_frame_count, pending_exception: old(self).active().pending_exception, error_ip: old(self).active().error_ip }),
+            final(self).heap == old(self).heap.insert(old(self).active_id(), ObjFiber { caller: old(self).active().caller, stack: StackS { view: old(self).active().stack.view.drop_last() }, frames: old(self).active().frames, handling_exception: old(self).active().handling_exception, call_arity: old(self).active().call_arity, return_ip: old(self).active().return_ip, return_frame_count: old(self).active().return_frame_count, pending_frame_count: old(self).active().pending_frame_count, pending_exception: old(self).active().pending_exception, error_ip: old(self).active().error_ip, cells_closed: old(self).active().cells_closed }),
             forall|i: int| #![trigger old(self).heap.dom().contains(i)] old(self).heap.dom().contains(i) && i != old(self).active_id() ==> final(self).heap.dom().contains(i) && final(self).heap[i] == old(self).heap[i],
     { unimplemented!() }
     #[verifier::external_body]
     fn push(&mut self, value: Value)
         requires old(self).fiber is Some, old(self).heap.dom().contains(old(self).active_id()), old(self).active().stack.view.len() < STACK_MAX
         ensures old(self).handles_same(final(self)),
-            final(self).heap == old(self).heap.insert(old(self).active_id(), ObjFiber { caller: old(self).active().caller, stack: StackS { view: old(self).active().stack.view.push(value) }, frames: old(self).active().frames, handling_exception: old(self).active().handling_exception, call_arity: old(self).active().call_arity, return_ip: old(self).active().return_ip, return_frame_count: old(self).active().return_frame_count, pending_frame_count: old(self).active().pending_frame_count, pending_exception: old(self).active().pending_exception, error_ip: old(self).active().error_ip }),
+            final(self).heap == old(self).heap.insert(old(self).active_id(), ObjFiber { caller: old(self).active().caller, stack: StackS { view: old(self).active().stack.view.push(value) }, frames: old(self).active().frames, handling_exception: old(self).active().handling_exception, call_arity: old(self).active().call_arity, return_ip: old(self).active().return_ip, return_frame_count: old(self).active().return_frame_count, pending_frame_count: old(self).active().pending_frame_count, pending_exception: old(self).active().pending_exception, error_ip: old(self).active().error_ip, cells_closed: old(self).active().cells_closed }),
             forall|i: int| #![trigger old(self).heap.dom().contains(i)] old(self).heap.dom().contains(i) && i != old(self).active_id() ==> final(self).heap.dom().contains(i) && final(self).heap[i] == old(self).heap[i],
     { unimplemented!() }
     #[verifier::external_body]
     fn poke(&mut self, depth: usize, value: Value)
         requires old(self).fiber is Some, old(self).heap.dom().contains(old(self).active_id()), depth < old(self).active().stack.view.len()
         ensures old(self).handles_same(final(self)),
-            final(self).heap == old(self).heap.insert(old(self).active_id(), ObjFiber { caller: old(self).active().caller, stack: StackS { view: old(self).active().stack.view.update(old(self).active().stack.view.len() - 1 - depth, value) }, frames: old(self).active().frames, handling_exception: old(self).active().handling_exception, call_arity: old(self).active().call_arity, return_ip: old(self).active().return_ip, return_frame_count: old(self).active().return_frame_count, pending_frame_count: old(self).active().pending_frame_count, pending_exception: old(self).active().pending_exception, error_ip: old(self).active().error_ip }),
+            final(self).heap == old(self).heap.insert(old(self).active_id(), ObjFiber { caller: old(self).active().caller, stack: StackS { view: old(self).active().stack.view.update(old(self).active().stack.view.len() - 1 - depth, value) }, frames: old(self).active().frames, handling_exception: old(self).active().handling_exception, call_arity: old(self).active().call_arity, return_ip: old(self).active().return_ip, return_frame_count: old(self).active().return_frame_count, pending_frame_count: old(self).active().pending_frame_count, pending_exception: old(self).active().pending_exception, error_ip: old(self).active().error_ip, cells_closed: old(self).active().cells_closed }),
             forall|i: int| #![trigger old(self).heap.dom().contains(i)] old(self).heap.dom().contains(i) && i != old(self).active_id() ==> final(self).heap.dom().contains(i) && final(self).heap[i] == old(self).heap[i],
     { unimplemented!() }
     // ip := saved ip of the active fiber's current frame (plus active chunk / module, not modelled)
@@ -198,6 +203,7 @@ impl Vm {
     //@  requires old(self).fiber is Some && arg is Some ==> old(self).active().stack.view.len() > 0
     //@  requires old(self).fiber is Some ==> old(self).active().frames@.len() > 0
     //@  requires old(self).heap[fiber.id()].stack.view.len() + 2 <= STACK_MAX, !old(self).heap[fiber.id()].new_fiber() ==> old(self).heap[fiber.id()].stack.view.len() > 0
+    //@  ensures @switching_to_a_fiber_closes_no_captured_variable forall|i: int| #![trigger old(self).heap.dom().contains(i)] old(self).heap.dom().contains(i) ==> final(self).heap.dom().contains(i) && final(self).heap[i].cells_closed == old(self).heap[i].cells_closed
     //@  ensures @rejected_call_changes_nothing r is Err ==> final(self).heap == old(self).heap && old(self).handles_same(final(self))
     //@  ensures @rejected_iff_finished_or_running (r is Err) <==> (old(self).heap[fiber.id()].frames@.len() == 0 || old(self).heap[fiber.id()].caller is Some)
     //@  ensures r matches Err(e) ==> e.kind is RuntimeError
@@ -223,6 +229,8 @@ impl Vm {
     //@  requires old(self).wf(), old(self).fiber is Some
     //@  requires arg is Some ==> old(self).active().stack.view.len() > 0
     //@  requires old(self).active().caller matches Some(c) ==> old(self).heap.dom().contains(c.id()) && c.id() != old(self).active_id() && old(self).heap[c.id()].stack.view.len() > 0 && old(self).heap[c.id()].frames@.len() > 0
+    //@  ensures @a_suspended_fiber_keeps_the_cells_of_its_captured_variables_open forall|i: int| #![trigger old(self).heap.dom().contains(i)] old(self).heap.dom().contains(i) ==> final(self).heap.dom().contains(i) && final(self).heap[i].cells_closed == old(self).heap[i].cells_closed
+    //@  ensures @the_yielding_fiber_keeps_the_cells_of_its_captured_variables_open final(self).heap.dom().contains(old(self).active_id()) && final(self).heap[old(self).active_id()].cells_closed == old(self).active().cells_closed
     //@  ensures @yield_outside_a_fiber_is_an_error (r is Err) <==> (old(self).active().caller is None)
     //@  ensures r matches Err(e) ==> e.kind is RuntimeError
     //@  ensures @rejected_yield_keeps_fibers r is Err ==> final(self).fiber == old(self).fiber && final(self).unsafe_fiber == old(self).unsafe_fiber && final(self).heap.dom() == old(self).heap.dom() && final(self).active().caller == old(self).active().caller && final(self).active().frames@.len() == old(self).active().frames@.len() && (forall|i: int| old(self).heap.dom().contains(i) && i != old(self).active_id() ==> final(self).heap[i] == old(self).heap[i])
@@ -257,6 +265,7 @@ impl Vm {
     //@  ensures @a_frame_that_is_left_takes_the_return_it_had_parked_along final(self).heap[old(self).active_id()].return_ip is Some ==> final(self).heap[old(self).active_id()].return_frame_count != old(self).active().frames@.len()
     //@  ensures @a_frame_that_is_left_takes_the_exception_its_finally_block_was_entered_with_along (old(self).active().frames@.len() > 1 && final(self).handling_exception) ==> final(self).heap[old(self).active_id()].pending_frame_count != old(self).active().frames@.len()
     //@  ensures @the_end_of_the_outermost_fiber_ends_the_run (old(self).active().frames@.len() == 1 && old(self).active().caller is None) ==> (r matches Ok(Some(_))) && final(self).fiber == old(self).fiber && final(self).active().frames@.len() == 0
+    //@  ensures @a_frame_that_is_left_closes_the_cells_of_its_variables_and_no_others final(self).heap[old(self).active_id()].cells_closed == old(self).active().cells_closed.push(old(self).active().frames@.last().slot_base as int)
     //@  ensures @other_fibers_untouched forall|i: int| old(self).heap.dom().contains(i) && i != old(self).active_id() && !(old(self).active().caller matches Some(c) && i == c.id()) ==> final(self).heap.dom().contains(i) && final(self).heap[i] == old(self).heap[i]
     //@end
 }
